@@ -165,7 +165,7 @@ def run(ctx):
         ctx.nontrivial.add((child, parent, edges))
     for _ in range(1500 if thorough else 250):
         n_el = rng.randint(1, 12)
-        parent = rng.sample(range(1, 40), n_el)
+        parent = rng.sample(range(0, 40), n_el)   # 0 included: a falsy element
         mask = rng.getrandbits(n_el)
         out = mc.safe(sub.subseq_from_mask, mask, parent)
         events.append({"op": "subseq", "mask": mask, "parent": parent, "out": jout(out)})
